@@ -111,3 +111,57 @@ Fixpoint do_history_old (p : pstate_old) (h : list run) : list (list emission) *
   | r :: rest => let '(e, p') := do_run_old p r in
                  let '(es, p'') := do_history_old p' rest in (e :: es, p'')
   end.
+
+(* ================= PortfolioRunner::run (runtime/runner.rs) =================
+   Every member runs under its own Runner on its own OS thread; `rs` lists, in the order the members were
+   added (= the order they are joined), how each member's run ended: None = returned, Some e = panicked with
+   payload e.  The stop signal is raised when a member reports a failure and stop_on_first_failure is set. *)
+Inductive pf_out := PfOk | PfMember (payload : nat) | PfAssert.
+
+Definition is_some {A} (o : option A) : bool := match o with Some _ => true | None => false end.
+
+(* `for thread in threads { if let Err(e) = thread.join() { panic = Some(e); } }` *)
+Definition pf_join (rs : list (option nat)) : option nat :=
+  fold_left (fun acc r => match r with Some e => Some e | None => acc end) rs None.
+
+Definition pf_stop_signal (stop : bool) (rs : list (option nat)) : bool :=
+  stop && existsb is_some rs.
+
+(* assert!(!stop_on_first_failure || stop_signal == panic.is_some()); if let Some(e) = panic { resume_unwind(e) } *)
+Definition portfolio_run (stop : bool) (rs : list (option nat)) : pf_out :=
+  let panic := pf_join rs in
+  if negb stop || Bool.eqb (pf_stop_signal stop rs) (is_some panic)
+  then match panic with Some e => PfMember e | None => PfOk end
+  else PfAssert.
+
+(* the code before repair F34: assert!(stop_signal == panic.is_some()) *)
+Definition portfolio_run_old (stop : bool) (rs : list (option nat)) : pf_out :=
+  let panic := pf_join rs in
+  if Bool.eqb (pf_stop_signal stop rs) (is_some panic)
+  then match panic with Some e => PfMember e | None => PfOk end
+  else PfAssert.
+
+(* ================= UNGRACEFUL_SHUTDOWN_CONFIG (config.rs; written by Execution::run) =================
+   A thread-local copy of the run's UngracefulShutdownConfig, read by run_to_completion (early return) and by
+   PooledContinuation::drop.  Every execution writes its own run's value before anything reads it. *)
+Record ug := mkUg { ug_early : bool; ug_drop : bool }.
+Definition ug_default : ug := mkUg false false.
+Definition ug_state := list (nat * ug).
+Fixpoint ug_get (l : ug_state) (t : nat) : ug :=
+  match l with [] => ug_default | (t', x) :: r => if Nat.eqb t t' then x else ug_get r t end.
+Fixpoint ug_set (l : ug_state) (t : nat) (x : ug) : ug_state :=
+  match l with
+  | [] => [(t, x)]
+  | (t', y) :: r => if Nat.eqb t t' then (t, x) :: r else (t', y) :: ug_set r t x
+  end.
+(* one run on thread t with configuration cfg: the value the runtime reads during the run, and the state left behind *)
+Definition ug_run (s : ug_state) (t : nat) (cfg : ug) : ug * ug_state :=
+  let s' := ug_set s t cfg in (ug_get s' t, s').
+Definition ug_history (s : ug_state) (h : list (nat * ug)) : ug_state :=
+  fold_left (fun s r => snd (ug_run s (fst r) (snd r))) h s.
+
+(* payload of a run whose task panicked with `own`: replaced only when early return is in force and the
+   unwinding task reaches a scheduling point (StepError::TaskPanicEarlyReturn) *)
+Inductive panic_payload := PayOwn (p : nat) | PayEarlyReturn.
+Definition panic_result (eff : ug) (unwinding_switches : bool) (own : nat) : panic_payload :=
+  if ug_early eff && unwinding_switches then PayEarlyReturn else PayOwn own.
